@@ -27,6 +27,8 @@ MAXI = 2 ** 63 - 1
 MINI = -2 ** 63
 ISQ = 3037000499          # floor(sqrt(2^63))
 
+MAX_CONFIRM = 40          # mismatches re-executed and reported per family (the rest is only counted)
+
 BIN_OPS = ["add", "sub", "mul", "div", "mod"]
 REL_OPS = ["eq", "ne", "gt", "lt", "ge", "le"]
 UN_OPS = ["neg", "plus", "abs", "length"]
@@ -259,6 +261,9 @@ def check_arith(rep, work, vh, cases, tag="a", timeout=900):
                 vc.log("SPEC-DRIFT: IntFast.tla and the exact result differ on %s" % json.dumps(case_of(rec, run)))
             else:
                 mism.append((rec, run, rv))
+    if len(mism) > MAX_CONFIRM:
+        counters["mismatches_not_reexecuted"] = len(mism) - MAX_CONFIRM
+        mism = mism[:MAX_CONFIRM]
     if mism:
         again = replay_arith(work, vh, [dict(case_of(rec, run), id=i) for i, (rec, run, rv) in enumerate(mism)], tag + "r")
         for (rec, run, rv), rec2 in zip(mism, again):
@@ -353,15 +358,59 @@ def cps(s):
     return [ord(c) for c in s]
 
 
-def check_literals(rep, work, gojq, seed, quick):
+def replay_texts(work, vh, cases, tag):
+    cpath, tpath = work.path(tag + ".cases.ndjson"), work.path(tag + ".trace.ndjson")
+    vc.write_ndjson(cpath, cases)
+    vc.sh([vh, "c10tonum", "-in", cpath, "-out", tpath, "-j", str(vc.NCPU)], timeout=1800)
+    return vc.read_ndjson(tpath)
+
+
+def check_texts(rep, work, vh, cases, quick, tag="x"):
+    """Every text over the scanner alphabet (TLC-enumerated) through `tonumber` and the query parser."""
+    recs = replay_texts(work, vh, cases, tag)
+    verdicts, stats = vc.validate_sharded(work, recs, "ValidateNum.tla", "ValidateNum.cfg", {}, tag=tag,
+                                          timeout=900 if quick else 3000, per_shard_min=2000)
+    rep.add_tlc(stats)
+    counters = {"texts": len(recs)}
+    bad = []
+    for rec, v in zip(recs, verdicts):
+        rep.count("evaluations")
+        if "tlc" in v:
+            rep.count("out_of_model")
+            counters["tlc_" + v["tlc"]] = counters.get("tlc_" + v["tlc"], 0) + 1
+        elif v["v"] == "agree":
+            rep.count("traces_validated_against_impl")
+            k = "text_accepted" if rec["ok"] else "text_rejected"
+            counters[k] = counters.get(k, 0) + 1
+            if rec["ok"]:
+                rep.nontrivial(["text", rec["t"]])
+        else:
+            bad.append((rec, v))
+    if bad:
+        again = replay_texts(work, vh, [{"id": i, "t": rec["t"]} for i, (rec, v) in enumerate(bad[:MAX_CONFIRM])], tag + "r")
+        for (rec, v), rec2 in zip(bad, again):
+            text = "".join(chr(c) for c in rec["t"])
+            same = all(rec.get(k) == rec2.get(k) for k in ("ok", "qnum", "p"))
+            printed = "".join(chr(c) for c in rec["p"]) if "p" in rec else None
+            what = ("text %r: tonumber %s (printed %r), whole-text query literal: %s; lexer.go model (%s) says otherwise" % (
+                text, "accepts" if rec["ok"] else "rejects", printed, rec["qnum"], v["why"])) if same else "non-deterministic scanner result for %r" % text
+            rep.violation(what, {"family": "text", "case": {"t": rec["t"]}, "text": text,
+                                 "actual": {k: rec.get(k) for k in ("ok", "qnum", "p", "go")}})
+    return counters
+
+
+def check_literals(rep, work, vh, gojq, seed, quick):
     # model -> code: TLC enumerates the literal shapes
-    gout = work.path("lits.ndjson")
-    res = vc.tlc(work.dir, "NumLitGen.tla", "Gen.cfg", env={"VERIF_OUT": gout, "VERIF_N": "1500" if quick else "0"},
-                 timeout=600, extra=["-seed", str(seed), "-noGenerateSpecTE"])
-    if not res.ok() or not os.path.exists(gout):
+    gout, gout2 = work.path("lits.ndjson"), work.path("texts.ndjson")
+    res = vc.tlc(work.dir, "NumLitGen.tla", "Gen.cfg",
+                 env={"VERIF_OUT": gout, "VERIF_OUT2": gout2, "VERIF_N": "1500" if quick else "0",
+                      "VERIF_TEXTLEN": "4" if quick else "6"},
+                 timeout=900, extra=["-seed", str(seed), "-noGenerateSpecTE"])
+    if not res.ok() or not os.path.exists(gout) or not os.path.exists(gout2):
         raise vc.ToolError("NumLitGen failed:\n" + vc.tlc_error_text(res))
     rep.add_tlc(res)
     lits = vc.read_ndjson(gout)
+    text_counters = check_texts(rep, work, vh, vc.read_ndjson(gout2), quick)
     texts = ["".join(chr(c) for c in l["lit"]) for l in lits]
     rep.cov["literals_generated_by_tlc"] = len(texts)
     r = random.Random(seed)
@@ -415,6 +464,7 @@ def check_literals(rep, work, gojq, seed, quick):
     def bump(k):
         counters[k] = counters.get(k, 0) + 1
 
+    counters.update(text_counters)
     for rec, v in zip(recs, verdicts):
         rep.count("evaluations")
         text = "".join(chr(c) for c in rec["lit"]) if "lit" in rec else rec["query"]
@@ -431,6 +481,8 @@ def check_literals(rep, work, gojq, seed, quick):
                 rep.sample({"literal": text, "mode": rec["mode"], "printed": out, "verdict": "agree (%s)" % v["why"]}, limit=12)
         elif v["v"] == "oom":
             rep.count("out_of_model")
+        elif len(rep.violations) >= 2 * MAX_CONFIRM:
+            bump("mismatches_not_reexecuted")
         else:
             # second execution (single process) before anything is reported
             if "lit" in rec:
@@ -457,11 +509,11 @@ def check_literals(rep, work, gojq, seed, quick):
 
 def model_check(work, quick):
     """Design-level runs: IntFastMC for the word widths of the tier, NumLitMC; parallel JVMs."""
-    runs = [("IntFastMC.tla", "IntFastMC_W4.cfg", 2), ("IntFastMC.tla", "IntFastMC_W6.cfg", 3),
-            ("IntFastMC.tla", "IntFastMC_W8.cfg", 6), ("NumLitMC.tla", "NumLitMC.cfg", 2)]
+    runs = [("IntFastMC.tla", "IntFastMC_W4.cfg", 2), ("IntFastMC.tla", "IntFastMC_W6.cfg", 4),
+            ("IntFastMC.tla", "IntFastMC_W8.cfg", 2), ("NumLitMC.tla", "NumLitMC.cfg", 2)]
     if not quick:
         runs = [("IntFastMC.tla", "IntFastMC_W4t.cfg", 2), ("IntFastMC.tla", "IntFastMC_W6t.cfg", 4),
-                ("IntFastMC.tla", "IntFastMC_W8.cfg", 3), ("IntFastMC.tla", "IntFastMC_W10.cfg", 6),
+                ("IntFastMC.tla", "IntFastMC_W8t.cfg", 4), ("IntFastMC.tla", "IntFastMC_W10.cfg", 4),
                 ("NumLitMC.tla", "NumLitMC_t.cfg", 3)]
     out = {}
 
@@ -517,6 +569,8 @@ def run(tier, seed, replay):
                 vc.log("replay:", c)
             elif rec.get("family") == "literal":
                 replay_literal(rep, work, gojq, rec)
+            elif rec.get("family") == "text":
+                vc.log("replay:", check_texts(rep, work, vh, [dict(rec["case"], id=0)], True, tag="replay"))
             return rep.finish(min_decided=0)
         r = random.Random(seed)
         quick = tier == "quick"
@@ -524,7 +578,7 @@ def run(tier, seed, replay):
             mc = ex.submit(model_check, work, quick)
             cases = arith_cases(r, quick, 1.0 if quick else 24.0)
             counters = check_arith(rep, work, vh, cases, timeout=600 if quick else 3000)
-            lit_counters = check_literals(rep, work, gojq, seed, quick)
+            lit_counters = check_literals(rep, work, vh, gojq, seed, quick)
             rep.cov["model_checking"] = mc.result()
             for m in rep.cov["model_checking"].values():
                 rep.add_tlc({"states": m["distinct"], "generated": m["generated"]})
